@@ -123,15 +123,22 @@ func (s *Server) serve(ctx context.Context, listener net.Listener, handler Modbu
 			log.Printf("modbus server connection error: %v", err)
 		}
 	}
+	// Shutdown and Addr read the listener under the mutex, and OnServeFunc is the usual signal for other goroutines
+	// to start using (and shutting down) the server: the listener has to be stored, under the mutex, before that
+	s.mu.Lock()
+	s.listener = listener
+	s.mu.Unlock()
+	l := onceCloseListener{Listener: listener}
+	defer l.Close()
+	if s.isShutdown.Load() {
+		return ErrServerClosed // Shutdown was called before the server got to serve
+	}
+
 	if s.OnServeFunc != nil {
 		// when listener is started with ":0" (random port) this will be helpful knowing where to connect
 		// and if server is listening already
 		s.OnServeFunc(listener.Addr())
 	}
-
-	s.listener = listener
-	l := onceCloseListener{Listener: listener}
-	defer l.Close()
 
 	for {
 		netConn, err := l.Accept()
@@ -292,7 +299,10 @@ func (s *Server) Shutdown(ctx context.Context) error {
 	defer s.mu.Unlock()
 	s.isShutdown.Store(true)
 
-	err := s.listener.Close()
+	var err error
+	if s.listener != nil { // nil when Shutdown is called before the server has started to serve
+		err = s.listener.Close()
+	}
 
 	timer := time.NewTimer(50 * time.Millisecond)
 	defer timer.Stop()
